@@ -54,3 +54,10 @@ package chpool
 //@   requires c != nil && c.client != nil
 //@   modifies all(c.client)
 //@   ensures c.client.closed {destructor-closes-client}
+
+//@ contract (p *Pool) Do(ctx, q) (err) props(C11)
+//@   requires p != nil && p.pool != nil
+//@   modifies all(p.pool)
+//@ contract (p *Pool) Ping(ctx) (err) props(C11)
+//@   requires p != nil && p.pool != nil
+//@   modifies all(p.pool)
